@@ -51,6 +51,10 @@ func indexerRule(c *Ctx, rule string) {
 	}
 	iface, _ := ifaceT.Underlying().(*types.Interface)
 	impls := p.Implementations(iface)
+	observeFn := sharedIndexerMethod(p, "IndexPage")
+	if !c.Anchor(rule, "the function every IndexPage implementation calls to record the page", observeFn != nil) {
+		return
+	}
 	n := 0
 	for _, t := range impls {
 		m, promoted := MethodOf(t, "IndexPage")
@@ -78,7 +82,7 @@ func indexerRule(c *Ctx, rule string) {
 		// (a) observe
 		var obs ssa.Instruction
 		allCalls(fn, false, func(_ *ssa.Function, call ssa.CallInstruction) {
-			if o := calleeObj(call); o != nil && o.Name() == "observe" {
+			if sc := call.Common().StaticCallee(); sc != nil && observeFn != nil && sc == observeFn {
 				obs = call.(ssa.Instruction)
 			}
 		})
@@ -231,19 +235,14 @@ func c05Wire(c *Ctx, rule string) {
 		c.Check(rule, rp+": chunk min replaced only when Compare(pageMin, existing) < 0", fn.Pos(), len(mn) == 1 && mn[0] == token.LSS, "the comparison guarding the chunk minimum has the wrong polarity or is missing: found "+opsString(mn))
 	}
 	// observe: null page flag is numValues == numNulls
-	if obj := p.LookupFunc("(*baseColumnIndexer).observe"); c.Anchor(rule, "(*baseColumnIndexer).observe", obj != nil) {
-		fn := p.SSAFunc(obj)
+	if fn := sharedIndexerMethod(p, "IndexPage"); c.Anchor(rule, "the function every IndexPage implementation calls to record the page", fn != nil) {
 		ok := false
 		allInstrs(fn, false, func(_ *ssa.Function, ins ssa.Instruction) {
 			if bo, isB := ins.(*ssa.BinOp); isB && bo.Op == token.EQL {
 				px, okx := bo.X.(*ssa.Parameter)
 				py, oky := bo.Y.(*ssa.Parameter)
-				if okx && oky {
-					names := []string{px.Name(), py.Name()}
-					sort.Strings(names)
-					if names[0] == "numNulls" && names[1] == "numValues" {
-						ok = true
-					}
+				if okx && oky && px != py {
+					ok = true // the two counts it receives are compared with each other
 				}
 			}
 		})
@@ -270,6 +269,10 @@ func c05Order(c *Ctx) {
 		return
 	}
 	iface, _ := ifaceT.Underlying().(*types.Interface)
+	ctor := sharedIndexerMethod(p, "ColumnIndex")
+	if !c.Anchor(rule, "the constructor every ColumnIndex implementation calls", ctor != nil) {
+		return
+	}
 	n := 0
 	for _, t := range p.Implementations(iface) {
 		m, promoted := MethodOf(t, "ColumnIndex")
@@ -296,7 +299,7 @@ func c05Order(c *Ctx) {
 		n++
 		tn := recvString(t)
 		allCalls(fn, false, func(_ *ssa.Function, call ssa.CallInstruction) {
-			if calleeName(call) != "(*baseColumnIndexer).columnIndex" {
+			if ctor == nil || call.Common().StaticCallee() != ctor {
 				return
 			}
 			args := call.Common().Args // recv, minValues, maxValues, minOrder, maxOrder
@@ -504,4 +507,54 @@ func c05Boundary(c *Ctx) {
 			k+" "+strings.Join(probs, "; ")+": the merged index claims a boundary order that does not hold (or denies one that does), and readers that trust it skip pages containing matching values")
 	}
 	c.Min(rule, 2)
+}
+
+// sharedIndexerMethod finds, by role, the function that every
+// implementation of ColumnIndexer.<method> calls on the state they share (the
+// common static callee of all implementations that is a method declared in
+// this package and is not itself an implementation of the interface method):
+// for IndexPage the recorder of per-page null information, for ColumnIndex
+// the shared constructor of the thrift structure. Names are not used, so the
+// rules survive a rename.
+func sharedIndexerMethod(p *Prog, method string) *ssa.Function {
+	ifaceT := p.LookupType("ColumnIndexer")
+	if ifaceT == nil {
+		return nil
+	}
+	iface, _ := ifaceT.Underlying().(*types.Interface)
+	var common map[*ssa.Function]int
+	nimpl := 0
+	for _, t := range p.Implementations(iface) {
+		m, promoted := MethodOf(t, method)
+		if m == nil || promoted {
+			continue
+		}
+		fn := p.SSAFunc(m)
+		if fn == nil || fn.Blocks == nil {
+			continue
+		}
+		nimpl++
+		mine := map[*ssa.Function]bool{}
+		allCalls(fn, false, func(_ *ssa.Function, call ssa.CallInstruction) {
+			if sc := call.Common().StaticCallee(); sc != nil && inModule(sc) && sc.Signature.Recv() != nil && fnPkg(sc) == p.Root.Types {
+				mine[sc] = true
+			}
+		})
+		if common == nil {
+			common = map[*ssa.Function]int{}
+		}
+		for f := range mine {
+			common[f]++
+		}
+	}
+	var best *ssa.Function
+	for f, k := range common {
+		if k == nimpl && nimpl > 1 {
+			if best != nil {
+				return nil // ambiguous
+			}
+			best = f
+		}
+	}
+	return best
 }
